@@ -224,11 +224,9 @@ def modelSet (m : Mdl α) (p uid : Nat) (attr : Attr) (x : α) : Mdl α :=
   | .v => modCell m p uid (fun q => setVCell (q.tc && m.addressed) x)
   | .vin => modCell m p uid (fun _ => setVinCell x)
 
-/-- `Group.set`: plain element assignment -/
-def groupSet (m : Mdl α) (p uid : Nat) (attr : Attr) (x : α) : Mdl α :=
-  match attr with
-  | .v => modCell m p uid (fun _ => setVCell false x)
-  | .vin => modCell m p uid (fun _ => setVinCell x)
+/-- `Group.set`: delegates to `Model.set` of the model that holds the device (on the pinned tree it assigned the array
+element directly, so a time constant never reached `dae.Tf` / `Teye`: finding `group-set-skips-tf`, repaired) -/
+def groupSet (m : Mdl α) (p uid : Nat) (attr : Attr) (x : α) : Mdl α := modelSet m p uid attr x
 
 /-- cell update of `Model.alter` once `vin` exists: two `Model.set` calls -/
 def alterCell (prop : Bool) (attr : Attr) (x : α) (c : Cell α) : Cell α :=
